@@ -711,6 +711,20 @@ def ednsMany (s : EdnsSlot) : List EdnsReq → List (Option Nat)
   | [] => []
   | q :: t => (ednsServe s q).1 :: ednsMany (ednsServe s q).2 t
 
+/-! ### replies a transport keeps after the serve (`Chain.CancelWithRcode`, `views.ServeDNS`, DoH's `mock.Writer`)
+
+The heap of reply messages handed to transports that only keep the pointer
+(DoH / DoH3 pack after `ServeMsg` returned): every reply-producing path
+allocates its message (`new(dns.Msg)`, `dns.Copy(rr)`), so serving a request
+appends to the heap and never writes to an entry already there. `none` = the
+request ended without a reply. -/
+
+def retainServe (heap : List (Option Msg)) (req : Nat × Bool) : List (Option Msg) :=
+  heap ++ [if req.2 then some { addr := heap.length, id := req.1, body := req.1 } else none]
+
+def retainMany (heap : List (Option Msg)) (reqs : List (Nat × Bool)) : List (Option Msg) :=
+  reqs.foldl retainServe heap
+
 /-! ### the failover writer (`middleware/failover` `ResponseWriter.WriteMsg`) -/
 
 /-- a reply as far as the client can tell replies apart: transaction id, rcode, content mark -/
